@@ -122,7 +122,7 @@ type RunResult struct {
 	Error  string       `json:"error,omitempty"`
 }
 
-var defaultPkgs = []string{".", "./region", "./hrpc", "./filter", "./compression", "./compression/snappy", "./pb", "modernc.org/b/v2",
+var defaultPkgs = []string{".", "./region", "./hrpc", "./filter", "./zk", "./compression", "./compression/snappy", "./pb", "modernc.org/b/v2",
 	"net", "io", "time", "math/bits", "bytes", "encoding/binary", "slices", "errors", "strings", "bufio", "unicode/utf8",
 	"strconv", "sort", "context",
 	"google.golang.org/protobuf/encoding/protowire", "google.golang.org/protobuf/proto"}
